@@ -159,6 +159,22 @@ def build(case, off=frozenset()):
             name = "arr%d" % i
             lines.append("extern int %s[%s];" % (name, text))
             exp.append(("array", name, val, sorted(feats), name))
+            # a twin declaration: the same operands under another operator (array types with equal operands but different
+            # operators must stay different types)
+            if it["v"] % 2 == 1 and e2[0] in ("bin", "un"):
+                ops = cexpr.BIN_OPS if e2[0] == "bin" else ["-", "~", "+", "!"]
+                e3 = list(e2)
+                e3[1] = ops[(ops.index(e2[1]) + 1 + it["v"]) % len(ops)] if e2[1] in ops else ops[0]
+                try:
+                    e3 = cexpr.repair(e3, env)
+                    v3, _ = cexpr.evaluate(e3, env)
+                except cexpr.Invalid:
+                    v3 = 0
+                if 1 <= v3 <= 1 << 24 and e3[1] != e2[1]:
+                    f3 = cexpr.features(e3)
+                    f3.add("twin_operator")
+                    lines.append("extern int %s_t[%s];" % (name, cexpr.render(e3, env)[0]))
+                    exp.append(("array", name + "_t", v3, sorted(f3), name + "_t"))
         else:
             name = "cv%d" % i
             kw = ["const int", "constexpr int", "static const int", "const long"][it["v"]]
